@@ -29,6 +29,29 @@ def canonicalise(tree: ast.AST) -> None:
       not not X                ->  X
       not (a == b) / (a in b) / (a is b) and their negative forms -> the single comparison
     Line numbers stay those of the original nodes."""
+    # X.pop(X.index(y)) as a statement is X.remove(y)
+    for node in ast.walk(tree):
+        if isinstance(node, ast.Expr) and isinstance(node.value, ast.Call) and isinstance(node.value.func, ast.Attribute) and node.value.func.attr == "pop" and len(node.value.args) == 1:
+            a0 = node.value.args[0]
+            if isinstance(a0, ast.Call) and isinstance(a0.func, ast.Attribute) and a0.func.attr == "index" and len(a0.args) == 1 and ast.dump(a0.func.value) == ast.dump(node.value.func.value):
+                node.value = ast.copy_location(ast.Call(func=ast.Attribute(value=node.value.func.value, attr="remove", ctx=ast.Load()), args=[a0.args[0]], keywords=[]), node.value)
+                ast.fix_missing_locations(node)
+    # match S: case A(): .. case B() | C(): .. case _: ..   ->   if isinstance(S, A): .. elif isinstance(S, (B, C)): .. else: ..
+    for node in ast.walk(tree):
+        for fld in ("body", "orelse", "finalbody"):
+            seq = getattr(node, fld, None)
+            if isinstance(seq, list):
+                for i, st in enumerate(seq):
+                    if isinstance(st, ast.Match):
+                        new = _match_to_if(st)
+                        if new is not None:
+                            seq[i] = new
+    # type(x) stands on the left of == / is  (`C == type(x)` -> `type(x) == C`)
+    for node in ast.walk(tree):
+        if isinstance(node, ast.Compare) and len(node.ops) == 1 and isinstance(node.ops[0], (ast.Eq, ast.NotEq, ast.Is, ast.IsNot)):
+            r_ = node.comparators[0]
+            if isinstance(r_, ast.Call) and isinstance(r_.func, ast.Name) and r_.func.id == "type" and len(r_.args) == 1 and not (isinstance(node.left, ast.Call) and isinstance(node.left.func, ast.Name) and node.left.func.id == "type"):
+                node.left, node.comparators[0] = r_, node.left
     # a temporary that only names the condition of the if-statement that follows, or the value of the return
     # that follows, is read through:   c = COND; if c: ..  ->  if COND: ..      r = f(x); return r  ->  return f(x)
     for fn_ in ast.walk(tree):
@@ -219,8 +242,11 @@ def canonicalise(tree: ast.AST) -> None:
                 if not (isinstance(g, ast.If) and not g.orelse and len(g.body) == 1 and isinstance(g.body[0], (ast.Return, ast.Break))):
                     continue
                 neg = _simplify_not(ast.copy_location(ast.UnaryOp(op=ast.Not(), operand=g.test), g.test))
-                if not isinstance(neg, (ast.Name, ast.Attribute, ast.Compare)):
-                    continue
+                if not isinstance(neg, (ast.Name, ast.Attribute, ast.Compare, ast.BoolOp, ast.Call)):
+                    if isinstance(neg, ast.UnaryOp) and isinstance(neg.op, ast.Not) and isinstance(g.test, ast.UnaryOp):
+                        neg = g.test.operand  # `if not (A and B): break`  ->  while A and B
+                    else:
+                        continue
                 if isinstance(g.body[0], ast.Return) and _has_own_break(st.body[1:]):
                     continue
                 st.test = neg
@@ -257,6 +283,59 @@ def canonicalise(tree: ast.AST) -> None:
             if isinstance(t, ast.UnaryOp) and isinstance(t.op, ast.Not):
                 node.test = t.operand
                 node.body, node.orelse = node.orelse, node.body
+
+
+def _match_to_if(m: ast.Match):
+    """the if/elif chain a `match` over class patterns abbreviates; None when a pattern binds or destructures"""
+    def test_of(p) -> "ast.AST | None | bool":
+        if isinstance(p, ast.MatchAs) and p.pattern is None and p.name is None:
+            return True  # wildcard
+        if isinstance(p, ast.MatchClass) and not p.patterns and not p.kwd_patterns:
+            return ast.Call(func=ast.Name(id="isinstance", ctx=ast.Load()), args=[copy.deepcopy(m.subject), p.cls], keywords=[])
+        if isinstance(p, ast.MatchValue):
+            return ast.Compare(left=copy.deepcopy(m.subject), ops=[ast.Eq()], comparators=[p.value])
+        if isinstance(p, ast.MatchSingleton):
+            return ast.Compare(left=copy.deepcopy(m.subject), ops=[ast.Is()], comparators=[ast.Constant(value=p.value)])
+        if isinstance(p, ast.MatchOr):
+            parts = [test_of(x) for x in p.patterns]
+            if any(x is None or x is True for x in parts):
+                return None
+            if all(isinstance(x, ast.Call) for x in parts):
+                return ast.Call(func=ast.Name(id="isinstance", ctx=ast.Load()), args=[copy.deepcopy(m.subject), ast.Tuple(elts=[x.args[1] for x in parts], ctx=ast.Load())], keywords=[])
+            return ast.BoolOp(op=ast.Or(), values=parts)
+        return None
+
+    if not isinstance(m.subject, (ast.Name, ast.Attribute)):
+        return None
+    arms = []
+    for c in m.cases:
+        t = test_of(c.pattern)
+        if t is None:
+            return None
+        if c.guard is not None:
+            t = c.guard if t is True else ast.BoolOp(op=ast.And(), values=[t, c.guard])
+        arms.append((t, c.body))
+    head = None
+    cur = None
+    for t, body in arms:
+        if t is True:
+            if cur is None:
+                return None
+            cur.orelse = body
+            cur = None
+            break
+        node = ast.If(test=t, body=body, orelse=[])
+        ast.copy_location(node, body[0])
+        if head is None:
+            head = cur = node
+        else:
+            cur.orelse = [node]
+            cur = node
+    if head is None:
+        return None
+    ast.copy_location(head, m)
+    ast.fix_missing_locations(head)
+    return head
 
 
 def _selector(e: ast.AST) -> bool:
@@ -363,14 +442,16 @@ def _inline_private_constants(tree: ast.AST) -> None:
             stores[n.attr] = stores.get(n.attr, 0) + 1
         elif isinstance(n, ast.arg):
             stores[n.arg] = stores.get(n.arg, 0) + 1
-    def _const_assign(st):
+    def _const_assign(st, in_class=False):
         if isinstance(st, ast.Assign) and len(st.targets) == 1 and isinstance(st.targets[0], ast.Name):
             nm, val = st.targets[0].id, st.value
         elif isinstance(st, ast.AnnAssign) and isinstance(st.target, ast.Name) and st.value is not None:
             nm, val = st.target.id, st.value
         else:
             return None
-        if nm.startswith("_") and not nm.startswith("__") and isinstance(val, ast.Constant) and isinstance(val.value, (str, int)) and not isinstance(val.value, bool) and stores.get(nm, 0) == 1:
+        private = nm.startswith("_") and not nm.startswith("__")
+        shouting = nm.isupper() and len(nm) >= 4 and in_class  # a class-level NAME = "literal" is a constant by convention
+        if (private or shouting) and isinstance(val, ast.Constant) and isinstance(val.value, (str, int)) and not isinstance(val.value, bool) and stores.get(nm, 0) == 1:
             return nm, val
         return None
     mod_consts: dict = {}
@@ -382,7 +463,7 @@ def _inline_private_constants(tree: ast.AST) -> None:
     for st in tree.body:
         if isinstance(st, ast.ClassDef) and not any((isinstance(d, ast.Name) and d.id == "dataclass") or (isinstance(d, ast.Call) and isinstance(d.func, ast.Name) and d.func.id == "dataclass") for d in st.decorator_list):
             for s2 in st.body:
-                r = _const_assign(s2)
+                r = _const_assign(s2, True)
                 if r:
                     cls_consts[r[0]] = (st.name, r[1])
     if not mod_consts and not cls_consts:
